@@ -538,7 +538,7 @@ def replay_version_model(rep, wd, quick):
 
 
 GEN = {"C01": history_c01, "C03": history_c03, "C13": history_c13}
-NJOBS = {"C01": (36, 1200), "C03": (30, 300), "C13": (36, 1500)}
+NJOBS = {"C01": (36, 1200), "C03": (40, 300), "C13": (36, 1500)}
 
 
 def merge_truth(events):
